@@ -1,4 +1,4 @@
-import GrinVerif.Lemmas.StoreBackend
+import GrinVerif.Lemmas.StoreProof
 /-! # C08 — pruning, compaction, rewind and reopen never change what the MMR commits to
 
 Property theorems about the model of `store/src/{prune_list,types,leaf_set,pmmr}.rs`
@@ -13,7 +13,11 @@ strictly ascending, the subtree of every root lies entirely to the right of all 
 shifts, and no root has a pruned sibling.  `compactedP bm q` = `q` lies strictly inside the
 subtree of a root (its hash is gone from the hash file).  `layout bm size` = the positions
 `< size` that are not compacted, ascending — the order in which the compacted hash file
-stores them. -/
+stores them; `dataLayout bm size` = the leaf positions among them (the compacted data file).
+`Sub r q` = `q` lies in the subtree of `r` (`bintree_leftmost r ≤ q ≤ r`); `PrunedBy bm q` = `q` lies
+in the subtree of a root of `bm`; `Full S q` = every leaf below `q` satisfies `S`.
+`Synced` / `Live` / `HInv` are the reference invariants of a synced backend, of a backend inside
+a unit of work, and of a whole history (Lemmas/StoreSynced, StoreLive, StoreHistory). -/
 namespace GV.Props.C08
 open GV GV.Pmmr GV.Store
 
@@ -197,44 +201,180 @@ theorem compaction_spares_unspent {H : Type} (b : Backend H) (cutoff : Nat) (rm 
   | false => rfl
   | true => exact absurd (contains_iff.1 hc) h3
 
-/- Full statement intended (DESIGN §4 C08 `compact_preserves`), NOT proved:
+/-! ## `check_compact` preserves the reference (DESIGN §4 C08 `compact_preserves`)
 
-   for a synced backend `b` whose hash/data files hold the reference values of the surviving
-   positions (`hashFile.disk = (layout pl.bitmap size).map ref`, likewise the data file with the
-   leaf shift) and whose unspent leaves are not pruned, and `b' = b.checkCompact cutoff rm` with
-   `cutoff` an earlier boundary and `rm` the leaves spent after it:
-     * `b'.hashFile.disk = (layout b'.pruneList.bitmap size).map ref` (and the data file likewise),
-     * no unspent leaf, Merkle-path sibling of an unspent leaf, peak or pruned root is compacted in `b'`,
-     * `b'.unprunedSize = b.unprunedSize`,
-   hence (by `read_compacted_file`) every position the reference still needs reads the reference
-   value after compaction.
+`Synced b N ref dref df` (Lemmas/StoreSynced.lean) is the reference invariant of a synced backend
+whose reference MMR has `N` leaves (size `mmr N`): roll-up invariant; hash file clean and
+`= (layout bitmap (mmr N)).map ref`; data file fixed-size, clean and
+`= (dataLayout bitmap (mmr N)).map dref`; leaf set ascending, synced, made of leaf positions of
+the MMR none of which is pruned; all pruned roots inside the MMR; `mmr N + 64 < 2^64`; the prune
+file holds the bitmap.  The three former gaps are theorems now:
+(1) `rollup_set` / `new_prune_list_set` – what `append` / `PruneList::new` prune, as sets;
+(2) `pos_to_rm_spec` – `pos_to_rm` = exactly the newly compacted positions;
+(3) `leaf_shift_counts_compacted` – the leaf-shift analogue of `shift_counts_compacted`. -/
 
-   Missing: (1) set-level correctness of the roll-up (`pruned positions of append pl p = pruned
-   positions of pl ∪ subtree p`), (2) `pos_to_rm` = the newly compacted positions, so that
-   `write_tmp_pruned_spec` turns the old layout into the new one, (3) the leaf-shift analogue of
-   `shift_counts_compacted`.  These compositions are carried by the correspondence run, which
-   compares `get_from_file` of every position, root, size and all leaf data with the unpruned
-   reference after every compaction. -/
+/-- **(1) set-level correctness of the roll-up.** Appending `p` to a list whose roots are all at
+or before `p` (the code's "prune list append only" assertion), with `p + 64 < 2^64`: the leaves
+pruned afterwards are exactly the leaves pruned before plus the leaves below `p`; since the
+result satisfies the roll-up invariant, a position is pruned afterwards iff all leaves below it
+are (`canonical`). -/
+theorem rollup_set (pl : PruneList) (h : pl.Inv) (p : Nat) (hall : ∀ x ∈ pl.bitmap, x ≤ 1 + p)
+    (hb : p + 64 < 2 ^ 64) (q : Nat) :
+    PrunedBy (pl.append p).bitmap q ↔ Full (fun l => PrunedBy pl.bitmap l ∨ Sub p l) q := by
+  obtain ⟨_, _, _, _, h4⟩ := PruneList.appendFuel_leaves 64 pl p h hall (by omega) hb
+  exact PruneList.prunedBy_of_leaves (PruneList.append_inv h p) _ h4 q
 
-/-- **compact_preserves (partial).** What is proved about `check_compact` for every backend,
-cutoff and `rewind_rm_pos`: the unspent-leaf set (`leaf_pos_iter`, `n_unpruned_leaves`) is
-untouched; the new prune list satisfies the roll-up invariant, so `shift_spec`,
-`shift_counts_compacted`, `shifted_index` hold for it; and therefore, *if* the rewritten hash
-file holds the reference hashes of the surviving positions, every surviving position reads its
-reference hash.  The hypothesis `hlay` is the named gap (see the comment above). -/
-theorem compact_preserves_partial {H : Type} (el : Bytes → Option Nat) (b : Backend H)
-    (cutoff : Nat) (rm : Bitmap) :
+/-- Under the roll-up invariant the list is canonical: pruned iff every leaf below is pruned. -/
+theorem canonical (pl : PruneList) (h : pl.Inv) (q : Nat) :
+    PrunedBy pl.bitmap q ↔ Full (PrunedBy pl.bitmap) q := PruneList.prunedBy_iff_full h q
+
+/-- **(1′) the prune list written by `check_compact`** prunes a position iff every leaf below it
+was pruned before or is one of the leaves removed now. -/
+theorem new_prune_list_set {H : Type} (el : Bytes → Option Nat) (b : Backend H) (size cutoff : Nat)
+    (hp : Backend.CompactPre b size cutoff) (rm : Bitmap) (q : Nat) :
+    PrunedBy (b.checkCompact el cutoff rm).pruneList.bitmap q ↔
+      Full (P0 b.pruneList.bitmap (fun y => y ∈ (b.posToRm cutoff rm).1)) q :=
+  Backend.newBm_prunedBy hp rm q
+
+/-- **(2) `pos_to_rm` = the newly compacted positions**: a (1-based) position is removed from the
+hash file iff it is compacted away under the new prune list and was not under the old one. -/
+theorem pos_to_rm_spec {H : Type} (el : Bytes → Option Nat) (b : Backend H) (size cutoff : Nat)
+    (hp : Backend.CompactPre b size cutoff) (rm : Bitmap) (y : Nat) :
+    y ∈ (b.posToRm cutoff rm).2 ↔
+      1 ≤ y ∧ compactedP (b.checkCompact el cutoff rm).pruneList.bitmap (y - 1) = true ∧
+        compactedP b.pruneList.bitmap (y - 1) = false :=
+  Backend.posToRm_spec hp rm y
+
+/-- **(3) the leaf shift counts the compacted leaves**: for every position `q` that is not itself
+compacted away, `get_leaf_shift(q + 1)` is the number of leaf positions below `q` that are;
+hence `n_leaves(q+1) − get_leaf_shift(q+1) − 1` is the index of leaf `q` in the data file. -/
+theorem leaf_shift_counts_compacted (pl : PruneList) (h : pl.Inv) (q : Nat)
+    (hnc : compactedP pl.bitmap q = false) :
+    pl.getLeafShift (1 + q) = (List.range q).countP (fun x => isLeaf x && compactedP pl.bitmap x) :=
+  PruneList.getLeafShift_counts h q hnc
+
+theorem leaf_shifted_index (pl : PruneList) (h : pl.Inv) (size q : Nat) (hq : q < size)
+    (hl : isLeaf q = true) (hnc : compactedP pl.bitmap q = false) :
+    (dataLayout pl.bitmap size)[nLeaves (q + 1) - pl.getLeafShift (1 + q) - 1]? = some q := by
+  rw [dataIdx_eq h q ((isLeaf_iff q).1 hl) hnc, Nat.add_sub_cancel]
+  exact filter_range_index _ size q hq (by simp [hl, hnc])
+
+/-- **compact_preserves.** For a synced backend `b` satisfying the reference invariant and
+`b' = b.checkCompact cutoff rm` (any `cutoff ≤ size`, any `rewind_rm_pos`):
+* `b'` satisfies the reference invariant again **for the same reference**: in particular the new
+  hash file and data file are the reference values laid out by the NEW prune list;
+* no unspent leaf, no ancestor or Merkle-path sibling of an unspent leaf, no peak and no pruned
+  root is compacted away, and all pruned roots stay inside the MMR;
+* the unspent-leaf set and `unpruned_size` are unchanged (the latter is the reference size);
+* hence every unspent leaf reads its reference hash and data, every position on the Merkle path
+  of an unspent leaf, every peak and every pruned root reads its reference hash;
+* the root over the compacted backend is the root of the unpruned reference (and of `b`). -/
+theorem compact_preserves {H : Type} (el : Bytes → Option Nat) (hf : HashFn Bytes H)
+    (b : Backend H) (N : Nat) (ref : Nat → H) (dref : Nat → Bytes) (df : AOF Bytes)
+    (hs : Synced b N ref dref df) (cutoff : Nat) (hc : cutoff ≤ mmr N) (rm : Bitmap) :
     let b' := b.checkCompact el cutoff rm
+    (∃ df', Synced b' N ref dref df') ∧
+    b'.hashFile.disk = (layout b'.pruneList.bitmap (mmr N)).map ref ∧
+    (∃ df', b'.dataFile = .fixed df' ∧ df'.disk = (dataLayout b'.pruneList.bitmap (mmr N)).map dref) ∧
+    (∀ q, (q + 1) ∈ b.leafSet.bitmap → ∀ a, Sub (family a).1 q →
+      compactedP b'.pruneList.bitmap a = false) ∧
+    (∀ p ∈ peaks (mmr N), compactedP b'.pruneList.bitmap p = false) ∧
+    (∀ x ∈ b'.pruneList.bitmap, compactedP b'.pruneList.bitmap (x - 1) = false ∧ x ≤ mmr N) ∧
     b'.leafPosIter = b.leafPosIter ∧ b'.nUnprunedLeaves = b.nUnprunedLeaves ∧
-    b'.pruneList.Inv ∧
-    (∀ (ref : Nat → H) (size : Nat), b'.hashFile.Clean →
-      b'.hashFile.disk = (layout b'.pruneList.bitmap size).map ref →
-      ∀ pos, pos < size → compactedP b'.pruneList.bitmap pos = false →
-        b'.getPeakFromFile pos = some (ref pos)) := by
-  refine ⟨rfl, rfl, Backend.checkCompact_inv el b cutoff rm, ?_⟩
-  intro ref size hclean hlay pos hpos hnc
-  exact Backend.getPeakFromFile_of_layout ref size (Backend.checkCompact_inv el b cutoff rm)
-    hclean hlay pos hpos hnc
+    b'.unprunedSize = b.unprunedSize ∧ b'.unprunedSize = mmr N ∧
+    (∀ q, (q + 1) ∈ b.leafSet.bitmap →
+      b'.getHash q = some (ref q) ∧ b'.getData el q = some (dref q)) ∧
+    (∀ q, (q + 1) ∈ b.leafSet.bitmap → ∀ a, Sub (family a).1 q → a < mmr N →
+      b'.getFromFile a = some (ref a)) ∧
+    (∀ p ∈ peaks (mmr N), b'.getPeakFromFile p = some (ref p) ∧ b'.getFromFile p = some (ref p)) ∧
+    (∀ x ∈ b'.pruneList.bitmap, b'.getFromFile (x - 1) = some (ref (x - 1))) ∧
+    PM.root hf { b := b', size := mmr N } = Pmmr.root hf ((List.range (mmr N)).map ref) ∧
+    PM.root hf { b := b', size := mmr N } = PM.root hf { b := b, size := mmr N } := by
+  intro b'
+  obtain ⟨df', hs'⟩ := hs.checkCompact el hc rm
+  have hroots : ∀ x ∈ b'.pruneList.bitmap, compactedP b'.pruneList.bitmap (x - 1) = false ∧ x ≤ mmr N :=
+    fun x hx => ⟨PruneList.root_not_compacted hs'.inv x hx, hs'.roots x hx⟩
+  refine ⟨⟨df', hs'⟩, hs'.hashLay, ⟨df', hs'.data, hs'.dataLay⟩, ?_, ?_, hroots, rfl, rfl, ?_,
+    hs'.unprunedSize, ?_, ?_, ?_, ?_, hs'.root_eq hf, ?_⟩
+  · exact fun q hq a ha => hs'.needed_kept q hq a ha
+  · exact fun p hp => peak_not_compacted hs'.roots hs'.inv.pos p hp
+  · rw [hs'.unprunedSize, hs.unprunedSize]
+  · exact fun q hq => hs'.read_unspent el q hq
+  · exact fun q hq a ha hlt => hs'.read_path q hq a ha hlt
+  · exact fun p hp => hs'.read_peak p hp
+  · intro x hx
+    have := hs'.inv.pos x hx
+    exact (hs'.read_hash (x - 1) (by have := (hroots x hx).2; omega) (hroots x hx).1).2
+  · rw [hs'.root_eq hf, hs.root_eq hf]
+
+/-! ## Histories (DESIGN §4 C08 `history_refinement`)
+
+Operations `HOp` (Lemmas/StoreHistory.lean): `push e`, `prune pos`, `rewind N' rm` (to the
+boundary of `N'` leaves), `sync`, `discard`, `compact K rm` (cutoff = boundary of `K` leaves),
+`reopen`.  The store side is `bstep` (the model functions `PM.push`, `PM.prune`, `PM.rewind`,
+`Backend.sync`, `Backend.discard`, `Backend.checkCompact`, `Backend.reopen`; after `discard` and
+`reopen` the PMMR is re-created at `unpruned_size`, as `PMMRHandle` does).  The reference side is
+`RefSt.step`: an unpruned leaf list, a set of unspent positions, the committed copy of both, and
+the protocol's bookkeeping (`dirty`, the set `G` of leaves compacted away so far, the largest
+cutoff `C`).
+
+**Usage protocol** `RefSt.Proto r ops` – a decidable predicate on the operation list
+(`RefSt.ok`, one operation): sizes stay below `2^64 − 64`; `rewind` only from a synced state, to a
+boundary `C ≤ N' ≤ size`, re-adding only leaf positions of the smaller MMR that no compaction has
+removed (`∉ G`); `compact` and `reopen` only from a synced state, with `K ≤ size`.  (In the node:
+`rewind_rm_pos` holds the leaves spent by the blocks being rewound and rewinds never go below the
+horizon the last compaction used, which gives these conditions.)  `push`, `prune`, `sync`,
+`discard` are unrestricted.  Variable-size data files are not covered (`.fixed` only). -/
+
+/-- One operation allowed by the protocol preserves the history invariant `HInv` (store agrees
+with the current reference view; the backend the open unit started from is synced, agrees with
+the committed view, and the current backend is inside that unit). -/
+theorem history_step {H : Type} (el : Bytes → Option Nat) (hf : HashFn Bytes H) (p : PM H)
+    (r : RefSt) (h : HInv hf p r) (op : HOp) (hok : r.ok op) :
+    HInv hf (bstep el hf p op) (r.step op) := hinv_step el hf p r h op hok
+
+/-- The reference of a history is the unpruned Vec-backed MMR holding the same leaves. -/
+theorem reference_is_unpruned_mmr {H : Type} (hf : HashFn Bytes H) (es : List Bytes)
+    (hN : es.length ≤ 2 ^ 65) :
+    Pmmr.pushAll hf [] es = some (Pmmr.Co.allHashes hf (leafFn es) es.length) :=
+  reference_is_vec_mmr hf es hN
+
+/-- **history_preserves_reference.** After ANY sequence of `push` / `prune` / `rewind` / `sync` /
+`discard` / `compact` / `reopen` obeying the usage protocol, starting from the empty store:
+size, root, the unspent-leaf set, the hash and data of every unspent leaf, every hash on the
+Merkle path of an unspent leaf and every peak hash equal those of the unpruned reference holding
+the same leaf history (`allHashes` = the hash vector of the Vec-backed MMR over the reference's
+leaves, see `reference_is_unpruned_mmr`); outside a unit of work `unpruned_size` is the reference
+size as well. -/
+theorem history_preserves_reference {H : Type} (el : Bytes → Option Nat) (hf : HashFn Bytes H)
+    (ops : List HOp) (hproto : RefSt.Proto {} ops) :
+    let p := ops.foldl (bstep el hf) ({} : PM H)
+    let r := ops.foldl RefSt.step {}
+    let N := r.cur.es.length
+    let rh := Pmmr.Co.allHashes hf (leafFn r.cur.es) N
+    p.size = mmr N ∧
+    (r.dirty = false → p.b.unprunedSize = mmr N) ∧
+    PM.root hf p = Pmmr.root hf rh ∧
+    (∀ q, (q + 1) ∈ p.b.leafSet.bitmap ↔ q ∈ r.cur.U) ∧
+    (∀ q, q ∈ r.cur.U → ∃ i, i < N ∧ q = mmr i ∧
+      PM.getHash p q = some (refHash hf (leafFn r.cur.es) q) ∧
+      rh[q]? = some (refHash hf (leafFn r.cur.es) q) ∧
+      PM.getData el p q = some (r.cur.es.getD i [])) ∧
+    (∀ q, q ∈ r.cur.U → ∀ a, Store.Sub (family a).1 q → a < mmr N →
+      p.b.getFromFile a = some (refHash hf (leafFn r.cur.es) a)) ∧
+    (∀ pk ∈ peaks (mmr N), p.b.getPeakFromFile pk = some (refHash hf (leafFn r.cur.es) pk)) :=
+  hinv_observables el hf (hinv_run el hf ops _ _ (hinv_init hf) hproto)
+
+/-- **Merkle proofs over histories.** After any history obeying the protocol, `merkle_proof` of
+every unspent leaf over the (pruned, compacted, rewound, reopened) store is the very proof value
+the unpruned Vec-backed reference produces. -/
+theorem history_merkle_proofs {H : Type} (el : Bytes → Option Nat) (hf : HashFn Bytes H)
+    (ops : List HOp) (hproto : RefSt.Proto {} ops) :
+    let p := ops.foldl (bstep el hf) ({} : PM H)
+    let r := ops.foldl RefSt.step {}
+    ∀ q, q ∈ r.cur.U → PM.merkleProof hf p q =
+      Pmmr.merkleProof hf (Pmmr.Co.allHashes hf (leafFn r.cur.es) r.cur.es.length) q :=
+  fun q hq => hinv_merkleProof hf (hinv_run el hf ops _ _ (hinv_init hf) hproto) q hq
 
 /-! ## Non-vacuity -/
 
@@ -306,5 +446,103 @@ example : (AOF.ofDisk [10, 20, 30]).Clean ∧
 example : ∃ (b : Backend Nat) (df : AOF Bytes), Backend.CleanFixed b df ∧ b.hashFile.disk = [5] :=
   ⟨(((({} : Backend Nat).append [1,2,3,4,5,6,7,8] [5]).getD {}).sync), _,
     Backend.sync_clean (by rfl), by rfl⟩
+
+/-! ### a concrete synced backend: 8 leaves, a pruned subtree, a lone pruned leaf
+
+MMR of 8 leaves (15 positions).  Leaves 0 and 1 are compacted away (pruned root: position 2,
+height 1); the lone leaf at position 7 is pruned but its hash and data stay (pruned root of
+height 0); the leaf at position 4 is spent but not pruned yet; unspent leaves: 3, 8, 10, 11. -/
+
+def plEx : PruneList := { bitmap := [3, 8], shiftCache := [2, 2], leafShiftCache := [2, 2] }
+
+theorem mmr_vals : mmr 1 = 1 ∧ mmr 2 = 3 ∧ mmr 4 = 7 ∧ mmr 5 = 8 ∧ mmr 6 = 10 ∧ mmr 7 = 11 ∧ mmr 8 = 15 := by
+  simp [mmr, popcount]
+
+theorem pmh_ex : peakMapHeight 2 = (1, 1) ∧ peakMapHeight 7 = (4, 0) ∧ height 3 = 0 ∧ height 8 = 0 ∧
+    height 10 = 0 ∧ height 11 = 0 := by
+  obtain ⟨m1, m2, m4, m5, m6, m7, _⟩ := mmr_vals
+  have a := pmh_coord 1 1 (by simp [trailingOnes])
+  have b := pmh_coord 4 0 (by simp)
+  have c := pmh_coord 2 0 (by simp)
+  have d := pmh_coord 5 0 (by simp)
+  have e := pmh_coord 6 0 (by simp)
+  have f := pmh_coord 7 0 (by simp)
+  rw [m1] at a; rw [m4] at b; rw [m2] at c; rw [m5] at d; rw [m6] at e; rw [m7] at f
+  simp only [Nat.add_zero] at b c d e f
+  exact ⟨a, b, by simp [height, c], by simp [height, d], by simp [height, e], by simp [height, f]⟩
+
+theorem height_ex : height 2 = 1 ∧ height 7 = 0 := by
+  obtain ⟨a, b, _⟩ := pmh_ex
+  exact ⟨by simp [height, a], by simp [height, b]⟩
+
+theorem plEx_inv : plEx.Inv := by
+  obtain ⟨h2, h7⟩ := height_ex
+  obtain ⟨_, p7, _⟩ := pmh_ex
+  refine ⟨by simp [plEx], ?_, ?_, ?_, ?_, ?_⟩
+  · simp [plEx, Sorted]
+  · simp [plEx, bintreeLeftmost, h7]
+  · simp [plEx, scanFrom, PruneList.rootShift, h2, h7]
+  · simp [plEx, scanFrom, PruneList.rootLeafShift, h2, h7]
+  · intro k hk
+    have hk' : k = 0 ∨ k = 1 := by simp [plEx] at hk; omega
+    rcases hk' with rfl | rfl
+    · simp [plEx, PruneList.isPrunedBm, PruneList.isPruned, PruneList.isPrunedRoot, Bm.contains,
+        Bm.select, Bm.rank]
+    · simp [plEx, PruneList.isPrunedBm, PruneList.isPruned, PruneList.isPrunedRoot, Bm.contains,
+        Bm.select, Bm.rank, family, p7, bitSet]
+
+/-- the concrete backend: hashes `100 + p`, data `[p]` -/
+def bEx : Backend Nat :=
+  { hashFile := AOF.ofDisk ((layout plEx.bitmap (mmr 8)).map (fun p => 100 + p)),
+    dataFile := .fixed (AOF.ofDisk ((dataLayout plEx.bitmap (mmr 8)).map (fun p => [p]))),
+    leafSet := { bitmap := [4, 9, 11, 12], bak := [4, 9, 11, 12] },
+    pruneList := plEx, pruneFile := [3, 8] }
+
+theorem bEx_synced : Synced bEx 8 (fun p => 100 + p) (fun p => [p])
+    (AOF.ofDisk ((dataLayout plEx.bitmap (mmr 8)).map (fun p => [p]))) := by
+  obtain ⟨h2, h7⟩ := height_ex
+  obtain ⟨_, _, h3, h8, h10, h11⟩ := pmh_ex
+  have m8 := mmr_vals.2.2.2.2.2.2
+  refine ⟨plEx_inv, AOF.ofDisk_clean _, rfl, rfl, AOF.ofDisk_clean _, rfl, by simp [bEx, Sorted], rfl,
+    ?_, ?_, ?_, by rw [m8]; omega, rfl⟩
+  · intro x hx
+    simp [bEx] at hx
+    rcases hx with rfl | rfl | rfl | rfl <;> simp [m8, h3, h8, h10, h11]
+  · intro x hx
+    simp [bEx] at hx
+    rintro ⟨r, hr, hs⟩
+    simp [bEx, plEx] at hr
+    unfold Store.Sub bintreeLeftmost at hs
+    rcases hr with rfl | rfl <;> rcases hx with rfl | rfl | rfl | rfl <;> simp [h2, h7] at hs
+  · intro x hx
+    simp [bEx, plEx] at hx
+    rcases hx with rfl | rfl <;> rw [m8] <;> omega
+
+-- the hash file of the concrete backend holds positions 2 … 14 (leaves 0 and 1 are gone, the lone
+-- pruned leaf 7 is still there)
+example : layout plEx.bitmap 15 = [2, 3, 4, 5, 6, 7, 8, 9, 10, 11, 12, 13, 14] := by
+  obtain ⟨h2, h7⟩ := height_ex
+  have e : List.range 15 = [0, 1, 2, 3, 4, 5, 6, 7, 8, 9, 10, 11, 12, 13, 14] := by decide
+  simp [layout, e, plEx, compactedP, interior, bintreeLeftmost, h2, h7, List.filter]
+
+-- the hypotheses of `compact_preserves` are satisfiable by this backend, with a cutoff inside the
+-- MMR and a non-empty `rewind_rm_pos`; the conclusion gives e.g. the data of the unspent leaf 8
+example : ∃ df', Synced (bEx.checkCompact (fun _ => none) 11 [9]) 8 (fun p => 100 + p) (fun p => [p]) df' :=
+  (compact_preserves (fun _ => none) ⟨fun i _ => i, fun i l r => i + l + r⟩ bEx 8 _ _ _ bEx_synced 11
+    (by rw [mmr_vals.2.2.2.2.2.2]; omega) [9]).1
+
+example : (bEx.checkCompact (fun _ => none) 11 [9]).getData (fun _ => none) 8 = some [8] :=
+  ((compact_preserves (fun _ => none) ⟨fun i _ => i, fun i l r => i + l + r⟩ bEx 8 _ _ _ bEx_synced 11
+    (by rw [mmr_vals.2.2.2.2.2.2]; omega) [9]).2.2.2.2.2.2.2.2.2.2.1 8 (by simp [bEx])).2
+
+-- a history the protocol allows: three leaves, commit, spend the sibling pair, commit, compact at
+-- the boundary of two leaves, reopen, one more leaf, commit, rewind to three leaves, discard
+example : RefSt.Proto {} [.push [1], .push [2], .push [3], .sync, .prune 0, .prune 1, .sync,
+    .compact 2 [], .reopen, .push [4], .sync, .rewind 3 [], .discard] := by
+  have hb : ∀ n, n ≤ 10 → mmr n + 64 < 2 ^ 64 := fun n hn => by
+    have := Pmmr.Co.mmr_le_two_mul n; omega
+  simp only [RefSt.Proto, RefSt.ok, RefSt.step, List.length_append, List.length_cons, List.length_nil,
+    and_true, true_and]
+  refine ⟨hb _ (by omega), hb _ (by omega), hb _ (by omega), ?_, hb _ (by omega), ?_, ?_, ?_⟩ <;> simp
 
 end GV.Props.C08
